@@ -681,4 +681,210 @@ theorem inttAvx_real (P : PrimeSet) (k j : Nat) (g : LaneFwd P k) (gi : LaneInv 
     rw [hshape] at e1 ⊢
     exact inttAvx_eq_inttK _ last revL jj t _ _ ok e1 e2 cs (by omega) hc (by rw [hrl]; exact hlen)
 
+/-! ### `b_to_znx128_avx2` = `b_to_znx128_ref`, whole coefficient -/
+
+/-- the symmetric lift both implementations apply to the residue `r ∈ [0, Q)` -/
+def centre (Q r : Nat) : Int := if (Q + 1) / 2 ≤ r then (r : Int) - (Q : Int) else (r : Int)
+
+/-- the table-based reduction of `b_to_znx128_avx2` is exact: for `S < 4·Q`, `Q < 2^120`, `4·(2^120 − Q) ≤ Q` the index is at most 3
+(no index panic), the unconditional subtraction does not underflow, one correction suffices -/
+theorem crtTail_eq (Q S : Nat) (hQ1 : 4 * (2 ^ 120 - Q) ≤ Q) (hQ2 : Q < 2 ^ 120) (hS : S < 4 * Q) (v : BitVec 128) (hv : v.toNat = S) :
+    crtTail Q v = centre Q (S % Q) ∧ (v >>> 120).toNat ≤ 3 := by
+  have hqa : (v >>> 120).toNat = S / 2 ^ 120 := by rw [BitVec.toNat_ushiftRight, hv, Nat.shiftRight_eq_div_pow]
+  have hqa3 : S / 2 ^ 120 ≤ 3 := by
+    have : S / 2 ^ 120 < 4 := Nat.div_lt_of_lt_mul (by omega)
+    omega
+  refine ⟨?_, by rw [hqa]; exact hqa3⟩
+  unfold crtTail centre
+  simp only [hqa]
+  have hdm := Nat.div_add_mod S (2 ^ 120)
+  have hml := Nat.mod_lt S (show 0 < 2 ^ 120 by positivity)
+  have hQ0 : 0 < Q := by omega
+  -- the value after the table subtraction and after the correction
+  have key : ∀ qa, qa = S / 2 ^ 120 → qa ≤ 3 →
+      ∃ v1 : Nat, v1 = S - [0, Q, Q * 2, Q * 3].getD qa 0 ∧ [0, Q, Q * 2, Q * 3].getD qa 0 ≤ S ∧ v1 < 2 * Q ∧
+        (if Q ≤ v1 then v1 - Q else v1) = S % Q := by
+    intro qa hq hq3
+    have hmod : ∀ r, r < Q → ∀ k, S = r + k * Q → S % Q = r := fun r hr k e => by
+      rw [e, Nat.add_mul_mod_self_right, Nat.mod_eq_of_lt hr]
+    have hc : qa = 0 ∨ qa = 1 ∨ qa = 2 ∨ qa = 3 := by omega
+    rcases hc with h | h | h | h <;> subst h
+    · have : [0, Q, Q * 2, Q * 3].getD 0 0 = 0 := rfl
+      rw [this]
+      refine ⟨S, rfl, by omega, by omega, ?_⟩
+      split
+      · exact (hmod (S - Q) (by omega) 1 (by omega)).symm
+      · exact (hmod S (by omega) 0 (by omega)).symm
+    · have : [0, Q, Q * 2, Q * 3].getD 1 0 = Q := rfl
+      rw [this]
+      refine ⟨S - Q, rfl, by omega, by omega, ?_⟩
+      split
+      · exact (hmod (S - Q - Q) (by omega) 2 (by omega)).symm
+      · exact (hmod (S - Q) (by omega) 1 (by omega)).symm
+    · have : [0, Q, Q * 2, Q * 3].getD 2 0 = Q * 2 := rfl
+      rw [this]
+      refine ⟨S - Q * 2, rfl, by omega, by omega, ?_⟩
+      split
+      · exact (hmod (S - Q * 2 - Q) (by omega) 3 (by omega)).symm
+      · exact (hmod (S - Q * 2) (by omega) 2 (by omega)).symm
+    · have : [0, Q, Q * 2, Q * 3].getD 3 0 = Q * 3 := rfl
+      rw [this]
+      refine ⟨S - Q * 3, rfl, by omega, by omega, ?_⟩
+      split
+      · exact (hmod (S - Q * 3 - Q) (by omega) 4 (by omega)).symm
+      · exact (hmod (S - Q * 3) (by omega) 3 (by omega)).symm
+  obtain ⟨v1, hv1, hle, hv1lt, hres⟩ := key _ rfl hqa3
+  generalize [0, Q, Q * 2, Q * 3].getD (S / 2 ^ 120) 0 = T at *
+  have hT : T < 2 ^ 128 := by omega
+  have e1 : (v - BitVec.ofNat 128 T).toNat = v1 := by
+    rw [BitVec.toNat_sub, BitVec.toNat_ofNat, hv, Nat.mod_eq_of_lt hT, hv1]
+    have : 2 ^ 128 - T + S = (S - T) + 2 ^ 128 := by omega
+    rw [this, Nat.add_mod_right]; exact Nat.mod_eq_of_lt (by omega)
+  have eQ : (BitVec.ofNat 128 Q).toNat = Q := by rw [BitVec.toNat_ofNat]; exact Nat.mod_eq_of_lt (by omega)
+  have eH : (BitVec.ofNat 128 ((Q + 1) / 2)).toNat = (Q + 1) / 2 := by rw [BitVec.toNat_ofNat]; exact Nat.mod_eq_of_lt (by omega)
+  have e2 : (if BitVec.ofNat 128 Q ≤ v - BitVec.ofNat 128 T then v - BitVec.ofNat 128 T - BitVec.ofNat 128 Q else v - BitVec.ofNat 128 T).toNat
+      = S % Q := by
+    rw [← hres]
+    by_cases h : Q ≤ v1
+    · have h' : BitVec.ofNat 128 Q ≤ v - BitVec.ofNat 128 T := by rw [BitVec.le_def, eQ, e1]; exact h
+      rw [if_pos h', if_pos h, BitVec.toNat_sub, eQ, e1]
+      have : 2 ^ 128 - Q + v1 = (v1 - Q) + 2 ^ 128 := by omega
+      rw [this, Nat.add_mod_right]; exact Nat.mod_eq_of_lt (by omega)
+    · have h' : ¬ BitVec.ofNat 128 Q ≤ v - BitVec.ofNat 128 T := by rw [BitVec.le_def, eQ, e1]; exact h
+      rw [if_neg h', if_neg h, e1]
+  generalize (if BitVec.ofNat 128 Q ≤ v - BitVec.ofNat 128 T then v - BitVec.ofNat 128 T - BitVec.ofNat 128 Q else v - BitVec.ofNat 128 T) = v2 at *
+  simp only [BitVec.le_def, eH, e2]
+
+/-- `b_to_znx128_ref` (C07's `bToZnx128Core`) in closed form: the symmetric lift of `crtSum mod Q` -/
+theorem bToZnx128Core_eq_centre (P : PrimeSet) (g : P.Good) (x0 x1 x2 x3 : Nat) :
+    bToZnx128Core P x0 x1 x2 x3 = centre (bigQ P) (crtSum P x0 x1 x2 x3 % bigQ P) := by
+  unfold bToZnx128Core centre
+  simp only []
+  rw [crt_fold_eq P g, g.tq]
+  have hodd := g.odd
+  have hQpos : (0 : Int) < bigQ P := by
+    have : 0 < bigQ P := by omega
+    exact_mod_cast this
+  have hb : ((bigQ P : Nat) : Int) * 4 < 2 ^ 127 := by
+    have := g.bound; exact_mod_cast (by omega : bigQ P * 4 < 2 ^ 127)
+  rw [Int.tmod_eq_emod_of_nonneg (Int.natCast_nonneg _)]
+  have hcast : (crtSum P x0 x1 x2 x3 : Int) % (bigQ P : Int) = ((crtSum P x0 x1 x2 x3 % bigQ P : Nat) : Int) := (Int.natCast_mod _ _).symm
+  rw [hcast]
+  have hr1 : crtSum P x0 x1 x2 x3 % bigQ P < bigQ P := Nat.mod_lt _ (by omega)
+  generalize crtSum P x0 x1 x2 x3 % bigQ P = r at *
+  have hw : w128 ((bigQ P : Int) + 1) = (bigQ P : Int) + 1 := by rw [w128_of_range] <;> omega
+  rw [hw, Int.tdiv_eq_ediv_of_nonneg (by omega)]
+  have hhalf : ((bigQ P : Int) + 1) / 2 = (((bigQ P + 1) / 2 : Nat) : Int) := by push_cast; rfl
+  rw [hhalf]
+  by_cases h : (bigQ P + 1) / 2 ≤ r
+  · have h' : ((r : Nat) : Int) ≥ (((bigQ P + 1) / 2 : Nat) : Int) := by exact_mod_cast h
+    rw [if_pos h', if_pos h, w128_of_range] <;> omega
+  · have h' : ¬ ((r : Nat) : Int) ≥ (((bigQ P + 1) / 2 : Nat) : Int) := by
+      intro hc; apply h; exact_mod_cast hc
+    rw [if_neg h', if_neg h]
+
+/-- the Primes30 constant vectors of `arithmetic_avx.rs` (`Q_VEC`, `BARRETT_MU`, `POW32_CRT`, `POW16_CRT`, `CRT_VEC`, `QM_HI/MID/LO`) -/
+def Q30 (k : Nat) : Nat := primes30.qs.getD k 1
+def CRT30 (k : Nat) : Nat := primes30.crt.getD k 0
+def QM30 (k : Nat) : Nat := bigQ primes30 / Q30 k
+def v4 (f : Nat → Nat) : V4 := ⟨BitVec.ofNat 64 (f 0), BitVec.ofNat 64 (f 1), BitVec.ofNat 64 (f 2), BitVec.ofNat 64 (f 3)⟩
+def qV : V4 := v4 Q30
+def muV : V4 := v4 (fun k => (compactCst (Q30 k) (CRT30 k)).1)
+def p32V : V4 := v4 (fun k => (compactCst (Q30 k) (CRT30 k)).2.1)
+def p16V : V4 := v4 (fun k => (compactCst (Q30 k) (CRT30 k)).2.2)
+def crtV : V4 := v4 CRT30
+def hiV : V4 := v4 (fun k => QM30 k / 2 ^ 64)
+def midV : V4 := v4 (fun k => QM30 k / 2 ^ 32 % 2 ^ 32)
+def loV : V4 := v4 (fun k => QM30 k % 2 ^ 32)
+
+theorem primes30_crtC (k : Nat) (hk : k < 4) :
+    CrtC (BitVec.ofNat 64 (Q30 k)) (BitVec.ofNat 64 (compactCst (Q30 k) (CRT30 k)).1) (BitVec.ofNat 64 (compactCst (Q30 k) (CRT30 k)).2.1)
+      (BitVec.ofNat 64 (compactCst (Q30 k) (CRT30 k)).2.2) (BitVec.ofNat 64 (CRT30 k)) ∧
+    (BitVec.ofNat 64 (compactCst (Q30 k) (CRT30 k)).2.1).toNat ≡ 2 ^ 32 * (BitVec.ofNat 64 (CRT30 k)).toNat [MOD (BitVec.ofNat 64 (Q30 k)).toNat] ∧
+    (BitVec.ofNat 64 (compactCst (Q30 k) (CRT30 k)).2.2).toNat ≡ 2 ^ 16 * (BitVec.ofNat 64 (CRT30 k)).toNat [MOD (BitVec.ofNat 64 (Q30 k)).toNat] ∧
+    (BitVec.ofNat 64 (Q30 k)).toNat = Q30 k ∧ (BitVec.ofNat 64 (CRT30 k)).toNat = CRT30 k := by
+  have h : ∀ k, k < 4 →
+      ((2 ^ 29 < (BitVec.ofNat 64 (Q30 k)).toNat ∧ (BitVec.ofNat 64 (Q30 k)).toNat < 2 ^ 30 ∧
+        (BitVec.ofNat 64 (compactCst (Q30 k) (CRT30 k)).1).toNat = 2 ^ 61 / (BitVec.ofNat 64 (Q30 k)).toNat ∧
+        (BitVec.ofNat 64 (compactCst (Q30 k) (CRT30 k)).2.1).toNat < (BitVec.ofNat 64 (Q30 k)).toNat ∧
+        (BitVec.ofNat 64 (compactCst (Q30 k) (CRT30 k)).2.2).toNat < (BitVec.ofNat 64 (Q30 k)).toNat ∧
+        (BitVec.ofNat 64 (CRT30 k)).toNat < (BitVec.ofNat 64 (Q30 k)).toNat) ∧
+       (BitVec.ofNat 64 (compactCst (Q30 k) (CRT30 k)).2.1).toNat % (BitVec.ofNat 64 (Q30 k)).toNat
+          = (2 ^ 32 * (BitVec.ofNat 64 (CRT30 k)).toNat) % (BitVec.ofNat 64 (Q30 k)).toNat ∧
+       (BitVec.ofNat 64 (compactCst (Q30 k) (CRT30 k)).2.2).toNat % (BitVec.ofNat 64 (Q30 k)).toNat
+          = (2 ^ 16 * (BitVec.ofNat 64 (CRT30 k)).toNat) % (BitVec.ofNat 64 (Q30 k)).toNat ∧
+       (BitVec.ofNat 64 (Q30 k)).toNat = Q30 k ∧ (BitVec.ofNat 64 (CRT30 k)).toNat = CRT30 k) := by decide +kernel
+  obtain ⟨⟨a1, a2, a3, a4, a5, a6⟩, b1, b2, b3, b4⟩ := h k hk
+  exact ⟨⟨a1, a2, a3, a4, a5, a6⟩, b1, b2, b3, b4⟩
+
+theorem crtTerm_lt (q crt qm x : Nat) (hq : 0 < q) (hqm : 0 < qm) : crtTerm q crt qm x < q * qm := by
+  unfold crtTerm
+  have ht : x % q * crt % q < q := Nat.mod_lt _ hq
+  calc x % q * crt % q * qm < q * qm := Nat.mul_lt_mul_of_pos_right ht hqm
+
+/-- **whole `b_to_znx128_avx2` coefficient** (fused Barrett-CRT lanes, `_mm256_mul_epu32` limb accumulation, horizontal adds,
+`u128` table reduction, symmetric lift) **= `b_to_znx128_ref`** for every q120b word in the documented range `x_k < Q[k]·2^33` -/
+theorem bToZnx128Avx_eq_ref (x : V4) (h0 : x.l0.toNat < Q30 0 * 2 ^ 33) (h1 : x.l1.toNat < Q30 1 * 2 ^ 33)
+    (h2 : x.l2.toNat < Q30 2 * 2 ^ 33) (h3 : x.l3.toNat < Q30 3 * 2 ^ 33) :
+    bToZnx128AvxCoef x qV muV p32V p16V crtV hiV midV loV (bigQ primes30)
+      = bToZnx128Core primes30 x.l0.toNat x.l1.toNat x.l2.toNat x.l3.toNat := by
+  obtain ⟨c0, e0, f0, g0, k0⟩ := primes30_crtC 0 (by decide)
+  obtain ⟨c1, e1, f1, g1, k1⟩ := primes30_crtC 1 (by decide)
+  obtain ⟨c2, e2, f2, g2, k2⟩ := primes30_crtC 2 (by decide)
+  obtain ⟨c3, e3, f3, g3, k3⟩ := primes30_crtC 3 (by decide)
+  have t0 := reduceBAndApplyCrt_value x.l0 _ _ _ _ _ c0 (by rw [g0]; exact h0) e0 f0
+  have t1 := reduceBAndApplyCrt_value x.l1 _ _ _ _ _ c1 (by rw [g1]; exact h1) e1 f1
+  have t2 := reduceBAndApplyCrt_value x.l2 _ _ _ _ _ c2 (by rw [g2]; exact h2) e2 f2
+  have t3 := reduceBAndApplyCrt_value x.l3 _ _ _ _ _ c3 (by rw [g3]; exact h3) e3 f3
+  rw [g0, k0] at t0; rw [g1, k1] at t1; rw [g2, k2] at t2; rw [g3, k3] at t3
+  have q0 : Q30 0 < 2 ^ 30 ∧ 0 < Q30 0 := by decide
+  have q1 : Q30 1 < 2 ^ 30 ∧ 0 < Q30 1 := by decide
+  have q2 : Q30 2 < 2 ^ 30 ∧ 0 < Q30 2 := by decide
+  have q3 : Q30 3 < 2 ^ 30 ∧ 0 < Q30 3 := by decide
+  unfold bToZnx128AvxCoef
+  simp only [qV, muV, p32V, p16V, crtV, v4]
+  set T : V4 := ⟨reduceBAndApplyCrt x.l0 (BitVec.ofNat 64 (Q30 0)) (BitVec.ofNat 64 (compactCst (Q30 0) (CRT30 0)).1)
+      (BitVec.ofNat 64 (compactCst (Q30 0) (CRT30 0)).2.1) (BitVec.ofNat 64 (compactCst (Q30 0) (CRT30 0)).2.2) (BitVec.ofNat 64 (CRT30 0)),
+    reduceBAndApplyCrt x.l1 (BitVec.ofNat 64 (Q30 1)) (BitVec.ofNat 64 (compactCst (Q30 1) (CRT30 1)).1)
+      (BitVec.ofNat 64 (compactCst (Q30 1) (CRT30 1)).2.1) (BitVec.ofNat 64 (compactCst (Q30 1) (CRT30 1)).2.2) (BitVec.ofNat 64 (CRT30 1)),
+    reduceBAndApplyCrt x.l2 (BitVec.ofNat 64 (Q30 2)) (BitVec.ofNat 64 (compactCst (Q30 2) (CRT30 2)).1)
+      (BitVec.ofNat 64 (compactCst (Q30 2) (CRT30 2)).2.1) (BitVec.ofNat 64 (compactCst (Q30 2) (CRT30 2)).2.2) (BitVec.ofNat 64 (CRT30 2)),
+    reduceBAndApplyCrt x.l3 (BitVec.ofNat 64 (Q30 3)) (BitVec.ofNat 64 (compactCst (Q30 3) (CRT30 3)).1)
+      (BitVec.ofNat 64 (compactCst (Q30 3) (CRT30 3)).2.1) (BitVec.ofNat 64 (compactCst (Q30 3) (CRT30 3)).2.2) (BitVec.ofNat 64 (CRT30 3))⟩ with hT
+  have tl0 : T.l0.toNat < Q30 0 := by rw [hT]; simp only []; rw [t0]; exact Nat.mod_lt _ q0.2
+  have tl1 : T.l1.toNat < Q30 1 := by rw [hT]; simp only []; rw [t1]; exact Nat.mod_lt _ q1.2
+  have tl2 : T.l2.toNat < Q30 2 := by rw [hT]; simp only []; rw [t2]; exact Nat.mod_lt _ q2.2
+  have tl3 : T.l3.toNat < Q30 3 := by rw [hT]; simp only []; rw [t3]; exact Nat.mod_lt _ q3.2
+  have hlim : (hiV.l0.toNat < 2 ^ 26 ∧ hiV.l1.toNat < 2 ^ 26 ∧ hiV.l2.toNat < 2 ^ 26 ∧ hiV.l3.toNat < 2 ^ 26) ∧
+      (midV.l0.toNat < 2 ^ 32 ∧ midV.l1.toNat < 2 ^ 32 ∧ midV.l2.toNat < 2 ^ 32 ∧ midV.l3.toNat < 2 ^ 32) ∧
+      (loV.l0.toNat < 2 ^ 32 ∧ loV.l1.toNat < 2 ^ 32 ∧ loV.l2.toNat < 2 ^ 32 ∧ loV.l3.toNat < 2 ^ 32) := by decide +kernel
+  have hrec : hiV.l0.toNat * 2 ^ 64 + midV.l0.toNat * 2 ^ 32 + loV.l0.toNat = primes30.q1 * primes30.q2 * primes30.q3 ∧
+      hiV.l1.toNat * 2 ^ 64 + midV.l1.toNat * 2 ^ 32 + loV.l1.toNat = primes30.q0 * primes30.q2 * primes30.q3 ∧
+      hiV.l2.toNat * 2 ^ 64 + midV.l2.toNat * 2 ^ 32 + loV.l2.toNat = primes30.q0 * primes30.q1 * primes30.q3 ∧
+      hiV.l3.toNat * 2 ^ 64 + midV.l3.toNat * 2 ^ 32 + loV.l3.toNat = primes30.q0 * primes30.q1 * primes30.q2 := by decide +kernel
+  have hacc := crtAccumulate_eq T hiV midV loV
+    ⟨by omega, by omega, by omega, by omega, hlim.1.1, hlim.1.2.1, hlim.1.2.2.1, hlim.1.2.2.2,
+     hlim.2.1.1, hlim.2.1.2.1, hlim.2.1.2.2.1, hlim.2.1.2.2.2, hlim.2.2.1, hlim.2.2.2.1, hlim.2.2.2.2.1, hlim.2.2.2.2.2⟩
+  rw [hrec.1, hrec.2.1, hrec.2.2.1, hrec.2.2.2] at hacc
+  have hS : (crtAccumulate T hiV midV loV).toNat = crtSum primes30 x.l0.toNat x.l1.toNat x.l2.toNat x.l3.toNat := by
+    rw [hacc]
+    have u0 : T.l0.toNat = x.l0.toNat % primes30.q0 * primes30.c0 % primes30.q0 := by rw [hT]; exact t0
+    have u1 : T.l1.toNat = x.l1.toNat % primes30.q1 * primes30.c1 % primes30.q1 := by rw [hT]; exact t1
+    have u2 : T.l2.toNat = x.l2.toNat % primes30.q2 * primes30.c2 % primes30.q2 := by rw [hT]; exact t2
+    have u3 : T.l3.toNat = x.l3.toNat % primes30.q3 * primes30.c3 % primes30.q3 := by rw [hT]; exact t3
+    rw [u0, u1, u2, u3]
+    rfl
+  have g := primes30_good
+  have hQ : 4 * (2 ^ 120 - bigQ primes30) ≤ bigQ primes30 ∧ bigQ primes30 < 2 ^ 120 := by decide +kernel
+  have hpos : 0 < primes30.q1 * primes30.q2 * primes30.q3 ∧ 0 < primes30.q0 * primes30.q2 * primes30.q3 ∧
+      0 < primes30.q0 * primes30.q1 * primes30.q3 ∧ 0 < primes30.q0 * primes30.q1 * primes30.q2 := by decide +kernel
+  have hlt : crtSum primes30 x.l0.toNat x.l1.toNat x.l2.toNat x.l3.toNat < 4 * bigQ primes30 := by
+    have a0 := crtTerm_lt primes30.q0 primes30.c0 _ x.l0.toNat (by have := g.q0_gt; omega) hpos.1
+    have a1 := crtTerm_lt primes30.q1 primes30.c1 _ x.l1.toNat (by have := g.q1_gt; omega) hpos.2.1
+    have a2 := crtTerm_lt primes30.q2 primes30.c2 _ x.l2.toNat (by have := g.q2_gt; omega) hpos.2.2.1
+    have a3 := crtTerm_lt primes30.q3 primes30.c3 _ x.l3.toNat (by have := g.q3_gt; omega) hpos.2.2.2
+    rw [bigQ_eq0] at a0; rw [bigQ_eq1] at a1; rw [bigQ_eq2] at a2; rw [bigQ_eq3] at a3
+    unfold crtSum; omega
+  rw [(crtTail_eq (bigQ primes30) _ hQ.1 hQ.2 hlt _ hS).1, bToZnx128Core_eq_centre primes30 g]
+
 end Avx.Ntt
